@@ -3,6 +3,7 @@ reference counts are true, after every outer event of every history (direct
 operations, committed and aborted batches, no-op updates, restarts with
 regenerated counts, any lru-cache size)."""
 from ..core import Violation, deep
+from ..simdb import STORE_FLAVOURS
 from ..hgen import HistoryGen, make_pool, make_values, probe_keys, rare_huge
 from ..hworld import HWorld
 from ..core import hx, unhx
@@ -262,7 +263,7 @@ def generate(rng):
         for c in cmds:
             if c["op"] in ("set", "del", "sete") and c.get("on") == "live" and rng.random() < 0.1:
                 c["fw"] = [1, 0, rng.choice("EKOB")]
-    return {"prop": ID, "cfg": {"prune": True, "cache": cache, "rc": rng.choice(["defaultdict", "defaultdict", "counter"]), "ask_dead": int(rng.random() < 0.5), "store": rng.choice(["min", "min", "dict"])}, "cmds": cmds}
+    return {"prop": ID, "cfg": {"prune": True, "cache": cache, "rc": rng.choice(["defaultdict", "defaultdict", "counter"]), "ask_dead": int(rng.random() < 0.5), "store": rng.choice(STORE_FLAVOURS)}, "cmds": cmds}
 
 
 def execute(case, st):
